@@ -484,6 +484,8 @@ class PolyFacet:
             if q in ("numpy.reshape", "numpy.expand_dims", "numpy.ravel", "numpy.atleast_2d", "numpy.atleast_3d",
                      "numpy.broadcast_to") and args:
                 return self.of(args[0])         # layout only: every element keeps its value
+            if q in ("numpy.transpose", "numpy.swapaxes", "numpy.moveaxis") and args and self.gather_transparent:
+                return self.of(args[0])         # like x.T: every element keeps its value (only its position changes)
             if q in CAST_FUNCS and args:
                 return self.of(args[0])
             if q == "numpy.clip" and self.domain_clip_transparent and len(args) == 3 and \
